@@ -240,6 +240,7 @@ Proof.
   - (* nothing changed *)
     assert (Ha : ack_effect served s = served) by (unfold ack_effect; rewrite D; reflexivity).
     rewrite Ha. unfold persisted_effect. destruct (s_chan s); [|exact I].
+    destruct (s_write s); [|exact I].
     destruct I as [In Ie Ien Ind]. constructor.
     + intros id. rewrite persist_nodes. destruct (existsb _ (s_returned s)); [|apply In].
       destruct (lookup id (g_nodes served)) eqn:L; [reflexivity | rewrite In; exact L].
@@ -248,11 +249,15 @@ Proof.
     + exact Ien.
     + apply persist_edges_nodup; exact Ind.
   - destruct (s_chan s) eqn:Ch; [|discriminate].
+    assert (Hwr : s_write s = true).
+    { unfold stmt_ok in Hok. apply andb_true_iff in Hok. destruct Hok as [_ Hw]. rewrite D in Hw.
+      destruct (s_write s); [reflexivity | discriminate]. }
     rewrite <- D in *. clear D c0 r0.
     destruct (existsb is_delete (s_delta s)) eqn:Hd; [discriminate|].
     destruct (forallb (put_returned s) (s_delta s)) eqn:Hr; [|discriminate].
     destruct I as [In Ie Ien Ind].
-    unfold persisted_effect. rewrite Ch. set (sv := ack_effect served s).
+    unfold stmt_ok in Hok. apply andb_true_iff in Hok. destruct Hok as [Hok _].
+    unfold persisted_effect. rewrite Ch, Hwr. set (sv := ack_effect served s).
     constructor.
     + intros id. rewrite persist_nodes.
       destruct (existsb (touches_node id) (s_delta s)) eqn:T.
@@ -274,7 +279,7 @@ Proof.
         destruct (lookup id (g_edges served)) eqn:L; [reflexivity | rewrite Ie; exact L].
     + intros id e Hl. unfold sv, ack_effect in Hl.
       destruct (fold_edge_origin _ _ _ _ Hl) as [Hin|Hold].
-      * unfold stmt_ok in Hok. rewrite forallb_forall in Hok. specialize (Hok _ Hin). cbn in Hok.
+      * rewrite forallb_forall in Hok. specialize (Hok _ Hin). cbn in Hok.
         apply andb_true_iff in Hok. exact Hok.
       * destruct (Ien _ _ Hold) as [A B]. split; unfold sv, ack_effect; apply fold_has_node; assumption.
     + apply persist_edges_nodup; exact Ind.
@@ -322,14 +327,14 @@ Definition survives_full : Prop :=
 Definition nL (k : Z) : ncontent := {| c_labels := [1]; c_props := [(1, k)] |}.
 (* RESP: CREATE (n:L {k: 1}) *)
 Definition w_not_returned : list stmt :=
-  [{| s_chan := Resp; s_delta := [PutNode 1 (nL 1)]; s_returned := [] |}].
+  [{| s_chan := Resp; s_write := true; s_delta := [PutNode 1 (nL 1)]; s_returned := [] |}].
 (* RESP: CREATE (n:L {k: 1}) RETURN n ; MATCH (n:L {k: 1}) DELETE n *)
 Definition w_delete : list stmt :=
-  [{| s_chan := Resp; s_delta := [PutNode 1 (nL 1)]; s_returned := [RNode 1] |};
-   {| s_chan := Resp; s_delta := [DelNode 1]; s_returned := [] |}].
+  [{| s_chan := Resp; s_write := true; s_delta := [PutNode 1 (nL 1)]; s_returned := [RNode 1] |};
+   {| s_chan := Resp; s_write := true; s_delta := [DelNode 1]; s_returned := [] |}].
 (* HTTP: CREATE (n:L {k: 1}) RETURN n *)
 Definition w_http : list stmt :=
-  [{| s_chan := Http; s_delta := [PutNode 1 (nL 1)]; s_returned := [RNode 1] |}].
+  [{| s_chan := Http; s_write := true; s_delta := [PutNode 1 (nL 1)]; s_returned := [RNode 1] |}].
 
 Definition lost_at (h : list stmt) (id : N) : Prop :=
   lookup id (g_nodes (recover (snd (run h)))) <> lookup id (g_nodes (fst (run h))).
